@@ -41,15 +41,47 @@ def _walk_stmts(stmts, out_simple, out_tests):
 
 
 def _frontend(src, prune):
-    tree = ast.parse(src).body
+    # both entry points: the source text itself (the transformer parses it; the census then walks the tree the
+    # transformer holds) and a list of AST nodes parsed here
+    if len(src) % 2:
+        t = AST2SCFGTransformer(src, prune=prune)
+        tree = t.tree
+    else:
+        tree = ast.parse(src).body
+        t = AST2SCFGTransformer(tree, prune=prune)
     fn = tree[0]
     simple, tests = [], []
     _walk_stmts(fn.body, simple, tests)
     plain_tests = [(n, n.test) for n in tests if not isinstance(n.test, ast.BoolOp)]
-    t = AST2SCFGTransformer(tree, prune=prune)
     cfg = t.transform_to_ASTCFG()
     blocks = {k: (list(b.instructions), list(b.jump_targets)) for k, b in cfg.items()}
+    _frontend.last = (cfg, fn)
     return blocks, simple, plain_tests
+
+
+def _consumed(cfg, fn):
+    """The graph built from source stays what it is when it is used: converted to an SCFG, restructured and turned
+    back into Python (the blocks' statement lists are shared with the SCFG's AST blocks).  -> None | message"""
+    from numba_scfg.core.datastructures.ast_transforms import SCFG2ASTTransformer
+
+    from vpbt.core import library_raised
+
+    def snap():
+        return {k: ([ast.dump(i) for i in b.instructions], list(b.jump_targets)) for k, b in cfg.items()}
+
+    before = snap()
+    try:
+        scfg = cfg.to_SCFG()
+        scfg.restructure()
+        SCFG2ASTTransformer().transform(original=fn, scfg=scfg)
+    except Exception as e:
+        if not library_raised(e):
+            raise
+    after = snap()
+    if after != before:
+        k = next(k for k in before if after.get(k) != before[k])
+        return f"block {k} of the front-end graph changed while the graph was converted / restructured / regenerated: {before[k][0][-1:]} -> {after.get(k, [None])[0][-1:]}"
+    return None
 
 
 def _census(blocks, simple, plain_tests, prune, unpruned=None):
@@ -143,6 +175,10 @@ def check_program(src, arg_idx, depth, max_runs, recorded):
             if prune and A.pruned_local_symptom(src, isrc, mm):
                 sig = "C08:mismatch:pruned_local"
             return "fail", sig, f"prune={prune}: behaviour of the graph differs: {mm}", stats
+        if prune:
+            msg = _consumed(*_frontend.last)
+            if msg:
+                return "fail", "C08:consumed", msg, stats
     if stats["complete"] == 0:
         return "inconclusive", None, "", stats
     return "ok", None, "", stats
